@@ -22,7 +22,7 @@ import scen_sbm as S
 import mixgen
 
 META = {
-    'text': 'Theorems (Lean 4, for EVERY library, particle and input): over a model of the call structure of dbm.FluidParticle / dbm.InsolubleParticle (which library routine each method calls with which arguments and how the answers are combined) return_all equals the tuple assembled from the individual methods for gas and liquid particles and for inert particles unconditionally, and for mixed-phase particles under the stated hypotheses (flash result independent of the warm-start K; the two defect conditions excluded); the full statement is REFUTED in Lean by concrete libraries for the two defects of the code as written (individual methods test the number of zero entries of the liquid row instead of the liquid total; the single-phase-gas viscosity branch reads the liquid row). The model is tied to the real code by oracle-table correspondence (recorded dbm_f / seawater / flash calls replayed through the model: same questions, same outputs, same cache) and the two real tuples are compared directly on every generated case.',
+    'text': 'Theorems (Lean 4, for EVERY library, particle and input; the model carries the code variant of the two defect sites and the harness determines which variant the tree under test is): over a model of the call structure of dbm.FluidParticle / dbm.InsolubleParticle (which library routine each method calls with which arguments and how the answers are combined) return_all equals the tuple assembled from the individual methods for gas and liquid particles and for inert particles unconditionally, and for mixed-phase particles under the stated hypotheses (flash result independent of the warm-start K; the two defect conditions excluded); for the REPAIRED text of the two sites the full statement (single hypothesis: flash independent of K) is proved; for the code as first read the full statement is REFUTED in Lean by concrete libraries (individual methods test the number of zero entries of the liquid row instead of the liquid total; the single-phase-gas viscosity branch reads the liquid row). The model is tied to the real code by oracle-table correspondence (recorded dbm_f / seawater / flash calls replayed through the model: same questions, same outputs, same cache) and the two real tuples are compared directly on every generated case.',
     'note': 'Trusted: Lean kernel + 3 standard axioms; the hand transcription Model/Particle09.lean (validated each run by the oracle-table correspondence on every generated case); recorders installed by monkeypatching dbm.dbm_f / dbm.seawater / FluidMixture.equilibrium. NOT modelled: the equations of state, the flash and the particle correlations themselves (library parameters of the model); fp_type > 2. The hypothesis "flash result independent of the warm-start K" holds numerically only to the flash tolerance, so mixed-phase tuples are compared at TOL[flash_fugacity].',
     'technique': 'Lean 4 proof over a hand-written model of the call structure, generic in the library and in the monad + oracle-table correspondence on recorded library calls + direct comparison of the two real tuples',
 }
@@ -273,6 +273,43 @@ CORPUS = [
 ]
 
 
+# code variant of the tree under test (see Model/Particle09.lean `Code`); set by detect_code_variant()
+CODE = {'zeroEntryTest': 1, 'gasViscLiquidRow': 1}
+
+
+def detect_code_variant(ctx=None):
+    """replays the two Lean witnesses (CORPUS[0], CORPUS[1]) on the real code to find out which text of the two
+    defect sites the tree under test has: as first read (1) or repaired (0)"""
+    from tamoc import dbm
+    comp, fpt, m, T, P, Sa, Ta, st = CORPUS[0]
+    with S.quiet():
+        fp = dbm.FluidParticle(list(comp), fp_type=fpt)
+        ra = fp.return_all(np.array(m), T, P, Sa, Ta, st)
+        fp.K = None
+        rho = fp.density(np.array(m), T, P)
+    CODE['zeroEntryTest'] = int(not close(scal(rho), scal(ra[2]), TOL['flash_fugacity']))
+    comp, fpt, m, T, P, Sa, Ta, st = CORPUS[1]
+    with S.quiet():
+        fp = dbm.FluidParticle(list(comp), fp_type=fpt)
+        mi, _xi, _K = fp.equilibrium(np.array(m), T, P)
+        rows = dbm.FluidMixture.viscosity(fp, mi[0, :], T, P)
+        fp.K = None
+        v = fp.viscosity(np.array(m), T, P)
+    g, l = scal(rows[0, 0]), scal(rows[1, 0])
+    if close(g, l, 1e-9) or np.sum(mi[1, :]) != 0.:
+        CODE['gasViscLiquidRow'] = 1        # witness lost its discriminating power: keep the transcription as first read
+        if ctx is not None:
+            ctx.notes.append('viscosity-row witness no longer discriminates (rows %r, liquid total %r)' % ((g, l), float(np.sum(mi[1, :]))))
+    else:
+        CODE['gasViscLiquidRow'] = int(close(scal(v), l, 1e-12))
+    if ctx is not None:
+        ctx.notes.append('code variant of the tree under test (witnesses replayed on the real code): individual methods test %s; '
+                         'single-phase-gas viscosity reads the %s row' %
+                         ('the NUMBER OF ZERO ENTRIES of the liquid row (as first read, defect (a))' if CODE['zeroEntryTest'] else 'the liquid total (repaired)',
+                          'LIQUID (as first read, defect (b))' if CODE['gasViscLiquidRow'] else 'gas (repaired)'))
+    return dict(CODE)
+
+
 def corpus_case(k):
     from tamoc import dbm
     comp, fpt, m, T, P, Sa, Ta, status = CORPUS[k]
@@ -348,7 +385,7 @@ def norm_out(kind, method, o):
     return [scal(o)]
 
 
-def run_real(rec, obj, kind, x, slow_ok=True, cap=0.5):
+def run_real(rec, obj, kind, x, slow_ok=True, cap=0.25):
     """run return_all and every individual method on the real object; one record per method.
     returns None when the first call (return_all: one flash) took longer than 60 ms and slow_ok is False, or
     longer than `cap` seconds in any case (the individual methods repeat that flash about 40 times)"""
@@ -387,7 +424,8 @@ def table_args(table):
 
 
 def fluid_line(descr, fp, x, method, K0, table):
-    return req('P09.fluid', method, int(descr['fp_type']), int(descr['isair']), float(descr['sigma_correction']),
+    return req('P09.fluid', method, int(descr['fp_type']), int(descr['isair']), int(CODE['zeroEntryTest']),
+               int(CODE['gasViscLiquidRow']), float(descr['sigma_correction']),
                np.array(fp.Tc, dtype=float), np.array(x['m'], dtype=float), x['T'], x['P'], x['Sa'], x['Ta'],
                int(x['status'] == 1), int(K0 is not None), np.array([] if K0 is None else K0, dtype=float),
                *table_args(table))
@@ -556,9 +594,10 @@ def library_contracts(ctx, cases, r):
 
 def run(ctx, lean_ok):
     r = ctx.rng
+    detect_code_variant(ctx)
     nfl = ctx.n(130, 2500)
     nin = ctx.n(60, 1500)
-    slow_budget = ctx.n(0, 30)      # mixed-phase states whose flash takes 60-500 ms (stability analysis at its iteration limit)
+    slow_budget = ctx.n(0, 20)      # mixed-phase states whose flash takes 60-250 ms (stability analysis at its iteration limit)
     cases = []
     lines = []
     owners = []       # (case index, method) per line
@@ -578,7 +617,7 @@ def run(ctx, lean_ok):
                     st['band'] = ['small', 'mid', 'large'][(i // 3) % 3]
                     st['de'] = {'small': lu(r, 50e-6, 300e-6), 'mid': lu(r, 1e-3, 6e-3), 'large': lu(r, 2e-2, 5e-2)}[st['band']]
                 m = fluid_masses(obj, yk, st, descr['fp_type'])
-                if descr['fp_type'] == 2 and (st['t_flash'] > 0.5 or (slow_budget <= 0 and st['t_flash'] > 0.06)):
+                if descr['fp_type'] == 2 and (st['t_flash'] > 0.25 or (slow_budget <= 0 and st['t_flash'] > 0.06)):
                     ctx.count('mixed-phase state skipped (flash slower than 60 ms)')
                     continue
                 x = dict(m=[float(v) for v in m], T=st['T'], P=st['P'], Sa=st['Sa'], Ta=st['Ta'], status=st['status'])
@@ -665,11 +704,21 @@ def run(ctx, lean_ok):
             ctx.sample({'particle': c['descr'], 'inputs': c['x'], 'return_all': ra, 'individual': ind})
         if diffs:
             nviol += 1
-            if zero_entry:
+            dfields = set(fields[j] for j, _a, _b in diffs)
+            # signature of defect (a): the individual density is the GAS-ROW density of the gas phase alone, the
+            # solubilities (gas-phase fugacities in both paths) agree
+            sig_a = False
+            if zero_entry and 'Cs' not in dfields:
+                for name, args, rv in res['density']['table']:
+                    if name == 'density' and close(list(args[2:]), list(mi0), TOL['flash_fugacity']):
+                        sig_a = close(ind[2], rv[0], 1e-12)
+            # signature of defect (b): only quantities the library derives from the particle viscosity differ
+            sig_b = fo == 'gas' and dfields <= {'us', 'beta', 'beta_T'}
+            if sig_a:
                 vkey = 'mixed-phase-zero-entry-branch'
                 what = ('mixed-phase particle with a zero-mass component: the individual methods take the single-phase-gas branch '
                         '(np.sum(mi[1,:] == 0) counts zero entries) and disagree with return_all')
-            elif fo == 'gas':
+            elif sig_b:
                 vkey = 'single-phase-gas-viscosity-row'
                 what = ('mixed-phase particle whose flash returns gas only: the individual methods use the liquid-row viscosity '
                         '(FluidParticle.viscosity reads [1,0]) and disagree with return_all')
